@@ -1,0 +1,141 @@
+//go:build verif
+
+package router
+
+// Contracts for the deductive verifier under /verif (govc). This file contains
+// only comments: it adds no code with or without the build tag.
+
+// ---------------------------------------------------------------------------
+// Broker: ownership and data-structure invariant
+
+//@ owned broker broker
+//@ owned subscription broker
+//@ owned historyStore broker
+
+//@ pred sendChan(s *wamp.Session) = method(s.Peer, "Send")
+
+//@ pred brokerNN(b *broker) = b != nil && b.topicSubscription != nil && b.pfxTopicSubscription != nil && b.wcTopicSubscription != nil && b.eventHistoryStore != nil && b.subscriptions != nil && b.sessionSubIDSet != nil && b.idGen != nil && !isnil(b.log) && b.topicSubscription != b.pfxTopicSubscription && b.topicSubscription != b.wcTopicSubscription && b.pfxTopicSubscription != b.wcTopicSubscription
+
+//@ pred subTable(b *broker, match string) = match == wamp.MatchPrefix ? b.pfxTopicSubscription : (match == wamp.MatchWildcard ? b.wcTopicSubscription : b.topicSubscription)
+
+//@ pred brokerSubs(b *broker) = forall i wamp.ID :: i in b.subscriptions ==> (allocated(b.subscriptions[i]) && b.subscriptions[i].id == i && allocated(b.subscriptions[i].subscribers) && b.subscriptions[i].topic in subTable(b, b.subscriptions[i].match) && subTable(b, b.subscriptions[i].match)[b.subscriptions[i].topic] == b.subscriptions[i])
+
+//@ pred brokerExact(b *broker) = forall t wamp.URI :: t in b.topicSubscription ==> (b.topicSubscription[t] != nil && b.topicSubscription[t].topic == t && b.topicSubscription[t].match != wamp.MatchPrefix && b.topicSubscription[t].match != wamp.MatchWildcard && b.topicSubscription[t].id in b.subscriptions && b.subscriptions[b.topicSubscription[t].id] == b.topicSubscription[t])
+//@ pred brokerPfx(b *broker) = forall t wamp.URI :: t in b.pfxTopicSubscription ==> (b.pfxTopicSubscription[t] != nil && b.pfxTopicSubscription[t].topic == t && b.pfxTopicSubscription[t].match == wamp.MatchPrefix && b.pfxTopicSubscription[t].id in b.subscriptions && b.subscriptions[b.pfxTopicSubscription[t].id] == b.pfxTopicSubscription[t])
+//@ pred brokerWc(b *broker) = forall t wamp.URI :: t in b.wcTopicSubscription ==> (b.wcTopicSubscription[t] != nil && b.wcTopicSubscription[t].topic == t && b.wcTopicSubscription[t].match == wamp.MatchWildcard && b.wcTopicSubscription[t].id in b.subscriptions && b.subscriptions[b.wcTopicSubscription[t].id] == b.wcTopicSubscription[t])
+
+//@ pred brokerSess(b *broker) = forall i wamp.ID, s *wamp.Session :: i in b.subscriptions && s in b.subscriptions[i].subscribers ==> s != nil && !isnil(s.Peer)
+
+//@ pred brokerInv(b *broker) = brokerNN(b) && brokerSubs(b) && brokerExact(b) && brokerPfx(b) && brokerWc(b) && brokerSess(b)
+
+//@ pred idsFresh(b *broker) = b.idGen.next < wamp.MaxID && (forall i wamp.ID :: i in b.subscriptions ==> i <= b.idGen.next)
+
+//@ func (b *broker) trySend
+//@   on broker
+//@   props C01 C07
+//@   requires b != nil && !isnil(b.log) && sess != nil && !isnil(sess.Peer) && !isnil(msg)
+//@   modifies ghost sendcount
+//@   ensures [one-attempt] sendcount(sendChan(sess)) == old(sendcount(sendChan(sess))) + 1
+//@   ensures [others] forall c mathint :: c != sendChan(sess) ==> sendcount(c) == old(sendcount(c))
+
+//@ func (b *broker) syncDelSubscription
+//@   on broker
+//@   props C01 C05
+//@   requires brokerInv(b) && sub != nil && sub.id in b.subscriptions && b.subscriptions[sub.id] == sub
+//@   modifies map(b.subscriptions), map(b.topicSubscription), map(b.pfxTopicSubscription), map(b.wcTopicSubscription)
+//@   ensures [inv] brokerInv(b)
+//@   ensures [removed] !(sub.id in b.subscriptions)
+//@   ensures [others-kept] forall i wamp.ID :: i != sub.id ==> ((i in b.subscriptions) == old(i in b.subscriptions) && b.subscriptions[i] == old(b.subscriptions[i]))
+
+//@ func newSubscription
+//@   props C01
+//@   modifies nothing
+//@   ensures [fresh] result != nil && fresh(result) && result.subscribers != nil && fresh(result.subscribers)
+//@   ensures [fields] result.id == id && result.topic == topic && result.match == match
+//@   ensures [members] forall s *wamp.Session :: (s in result.subscribers) <==> (s == subscriber && subscriber != nil)
+
+//@ func (b *broker) syncInitSubscription
+//@   on broker
+//@   props C01 C20
+//@   requires brokerInv(b) && idsFresh(b)
+//@   requires subscriber == nil || !isnil(subscriber.Peer)
+//@   modifies b.idGen.next, map(b.subscriptions), map(b.topicSubscription), map(b.pfxTopicSubscription), map(b.wcTopicSubscription)
+//@   ensures [inv-nn] brokerNN(b)
+//@   ensures [inv-subs] brokerSubs(b)
+//@   ensures [inv-exact] brokerExact(b)
+//@   ensures [inv-pfx] brokerPfx(b)
+//@   ensures [inv-wc] brokerWc(b)
+//@   ensures [inv-sess] brokerSess(b)
+//@   ensures [inv-ids] forall i wamp.ID :: i in b.subscriptions ==> i <= b.idGen.next
+//@   ensures [existing] existingSub <==> old(topic in subTable(b, match))
+//@   ensures [stable-id] existingSub ==> sub == old(subTable(b, match)[topic]) && b.idGen.next == old(b.idGen.next)
+//@   ensures [registered] sub != nil && sub.id in b.subscriptions && b.subscriptions[sub.id] == sub && sub.topic == topic && topic in subTable(b, match) && subTable(b, match)[topic] == sub
+//@   ensures [new] !existingSub ==> fresh(sub) && sub.id == old(b.idGen.next) + 1 && sub.match == match && fresh(sub.subscribers) && (forall s *wamp.Session :: (s in sub.subscribers) <==> (s == subscriber && subscriber != nil))
+//@   ensures [others-kept] forall i wamp.ID :: i != sub.id ==> ((i in b.subscriptions) == old(i in b.subscriptions) && b.subscriptions[i] == old(b.subscriptions[i]))
+//@   ensures [existing-unchanged] existingSub ==> (forall i wamp.ID :: (i in b.subscriptions) == old(i in b.subscriptions) && b.subscriptions[i] == old(b.subscriptions[i]))
+
+//@ func (b *broker) syncPubMeta
+//@   inline
+
+//@ func (b *broker) syncPubSubMeta
+//@   on broker
+//@   props C18
+//@   requires brokerInv(b)
+//@   modifies ghost sendcount
+
+//@ func (b *broker) syncPubSubCreateMeta
+//@   on broker
+//@   props C18
+//@   requires brokerInv(b) && sub != nil
+//@   modifies ghost sendcount
+
+// ---------------------------------------------------------------------------
+// Broker: session index and ownership
+
+//@ pred brokerIndex(b *broker) = (forall s *wamp.Session, i wamp.ID :: (s in b.sessionSubIDSet && i in b.sessionSubIDSet[s]) <==> (i in b.subscriptions && s in b.subscriptions[i].subscribers)) && (forall s *wamp.Session :: s in b.sessionSubIDSet ==> allocated(b.sessionSubIDSet[s]))
+
+//@ pred brokerOwn(b *broker) = (forall i wamp.ID, j wamp.ID :: i in b.subscriptions && j in b.subscriptions && i != j ==> b.subscriptions[i].subscribers != b.subscriptions[j].subscribers) && (forall s1 *wamp.Session, s2 *wamp.Session :: s1 in b.sessionSubIDSet && s2 in b.sessionSubIDSet && s1 != s2 ==> b.sessionSubIDSet[s1] != b.sessionSubIDSet[s2])
+
+//@ pred isMember(b *broker, s *wamp.Session, i wamp.ID) = i in b.subscriptions && s in b.subscriptions[i].subscribers
+
+//@ func (b *broker) syncSubscribe
+//@   on broker
+//@   props C01 C18
+//@   requires brokerInv(b) && idsFresh(b) && brokerIndex(b) && brokerOwn(b)
+//@   requires subscriber != nil && !isnil(subscriber.Peer) && msg != nil
+//@   modifies b.idGen.next, map(b.subscriptions), map(b.topicSubscription), map(b.pfxTopicSubscription), map(b.wcTopicSubscription), map(b.sessionSubIDSet), all map[*wamp.Session]struct{}, all map[wamp.ID]struct{}, ghost sendcount
+//@   ensures [inv-nn] brokerNN(b)
+//@   ensures [inv-subs] brokerSubs(b)
+//@   ensures [inv-exact] brokerExact(b)
+//@   ensures [inv-pfx] brokerPfx(b)
+//@   ensures [inv-wc] brokerWc(b)
+//@   ensures [inv-sess] brokerSess(b)
+//@   ensures [inv-index] brokerIndex(b)
+//@   ensures [inv-own] brokerOwn(b)
+//@   ensures [inv-ids] forall i wamp.ID :: i in b.subscriptions ==> i <= b.idGen.next
+//@   ensures [subscribed] msg.Topic in subTable(b, match) && isMember(b, subscriber, subTable(b, match)[msg.Topic].id)
+//@   ensures [stable-id] old(msg.Topic in subTable(b, match)) ==> subTable(b, match)[msg.Topic] == old(subTable(b, match)[msg.Topic])
+//@   ensures [others-untouched] forall s *wamp.Session, i wamp.ID :: s != subscriber ==> (isMember(b, s, i) <==> old(isMember(b, s, i)))
+//@   ensures [own-others-kept] forall i wamp.ID :: i != subTable(b, match)[msg.Topic].id ==> (isMember(b, subscriber, i) <==> old(isMember(b, subscriber, i)))
+//@   callsite trySend : [reply] is(arg2, *wamp.Subscribed) && arg1 == subscriber && arg2.(*wamp.Subscribed).Request == msg.Request && msg.Topic in subTable(b, match) && arg2.(*wamp.Subscribed).Subscription == subTable(b, match)[msg.Topic].id
+
+//@ func (b *broker) syncUnsubscribe
+//@   on broker
+//@   props C01 C05 C18
+//@   requires brokerInv(b) && brokerIndex(b) && brokerOwn(b)
+//@   requires subscriber != nil && !isnil(subscriber.Peer) && msg != nil
+//@   modifies map(b.subscriptions), map(b.topicSubscription), map(b.pfxTopicSubscription), map(b.wcTopicSubscription), map(b.sessionSubIDSet), all map[*wamp.Session]struct{}, all map[wamp.ID]struct{}, ghost sendcount
+//@   ensures [inv-nn] brokerNN(b)
+//@   ensures [inv-subs] brokerSubs(b)
+//@   ensures [inv-exact] brokerExact(b)
+//@   ensures [inv-pfx] brokerPfx(b)
+//@   ensures [inv-wc] brokerWc(b)
+//@   ensures [inv-sess] brokerSess(b)
+//@   ensures [inv-index] brokerIndex(b)
+//@   ensures [inv-own] brokerOwn(b)
+//@   ensures [removed] !isMember(b, subscriber, msg.Subscription)
+//@   ensures [others-untouched] forall s *wamp.Session, i wamp.ID :: s != subscriber ==> (isMember(b, s, i) <==> old(isMember(b, s, i)))
+//@   ensures [own-others-kept] forall i wamp.ID :: i != msg.Subscription ==> (isMember(b, subscriber, i) <==> old(isMember(b, subscriber, i)))
+//@   ensures [non-member-no-change] !old(isMember(b, subscriber, msg.Subscription)) ==> (forall i wamp.ID :: (i in b.subscriptions) == old(i in b.subscriptions))
+//@   callsite trySend : [non-member-error] !old(isMember(b, subscriber, msg.Subscription)) ==> arg1 == subscriber && is(arg2, *wamp.Error) && arg2.(*wamp.Error).Error == wamp.ErrNoSuchSubscription && arg2.(*wamp.Error).Request == msg.Request
+//@   callsite trySend : [member-unsubscribed] old(isMember(b, subscriber, msg.Subscription)) ==> arg1 == subscriber && is(arg2, *wamp.Unsubscribed) && arg2.(*wamp.Unsubscribed).Request == msg.Request
